@@ -35,6 +35,14 @@ def grid(tier, seed):
             sfixed.append(c)
     for (t, s, es, d, ed) in sfixed:
         calls.append('s2s<%s, %s, %d, %s, %d>(rng);' % (TAGS[t], CT[s], es, CT[d], ed))
+    # plain integer -> coarser scaled, scaled -> plain integer
+    for (t, s_, d, ed) in [('ninf', 'i32', 'i32', 2), ('nrst', 'i16', 'i16', 3), ('tpi', 'i8', 'i8', 3), ('ninf', 'i16', 'i8', 5),
+                           ('nrst', 'i32', 'i16', 10), ('tpi', 'u16', 'u16', 4), ('ninf', 'i64', 'i64', 20), ('nat', 'i16', 'i16', 2)]:
+        calls.append('i2s<%s, %s, %s, %d>(rng);' % (TAGS[t], CT[s_], CT[d], ed))
+    # (nearest: scaled -> plain integer through convert<> with a native source tag does not compile)
+    for (t, s_, es, d) in [('ninf', 'i16', -4, 'i16'), ('tpi', 'i16', -8, 'i32'), ('tpi', 'i32', -16, 'i32'), ('ninf', 'i32', -10, 'i16'),
+                           ('ninf', 'u16', -6, 'u8'), ('tpi', 'i8', -3, 'i8')]:
+        calls.append('s2i<%s, %s, %d, %s>(rng);' % (TAGS[t], CT[s_], es, CT[d]))
     # float -> scaled
     ffixed = [('nrst', 'f32', 'i32', -8), ('tpi', 'f32', 'i16', -1), ('ninf', 'f64', 'i32', -1), ('nrst', 'f64', 'i64', -20),
               ('tpi', 'f64', 'i32', -16), ('ninf', 'f32', 'i16', -4), ('nat', 'f64', 'i32', -8), ('nrst', 'f80', 'i32', -4)]
